@@ -21,6 +21,9 @@ Correspondence with the Rust code:
 * `hashWriteFull/readEncryptedFull` — file id = hash of the stored bytes; the read path does NOT compare the id.
 * `KeyEntry`, `tryKey`, `findKey` — `key_from_backend` + the loop of `find_key_in_backend` (MAC failure `C001` → next key,
                         any other error aborts the search, nothing found → `C002`).
+* `BlobRepo`, `BlobRepo.store`, `copyOne`, `copyMany`, `runCopy` — two repositories with their own keys: `Packer::add`
+                        (`blob/packer.rs`), `commands/copy.rs copy / copy_blobs`, `BlobCopier::copy` (decode with the source key,
+                        re-encode with the destination key); `copyOneRaw` = `BlobCopier::copy_fast` (used by prune inside ONE repository).
 -/
 namespace Rustic.Codec
 
@@ -193,5 +196,92 @@ inductive KeyCmd (Pw : Type) where
 def applyKeyCmd {Pw MK : Type} (master : MK) (keys : List (KeyEntry Pw MK)) : KeyCmd Pw → List (KeyEntry Pw MK)
   | .add salt pw => keys ++ [.good salt pw master]
   | .remove i => keys.eraseIdx i
+
+/-! ### two repositories and `copy` (`commands/copy.rs`, `blob/packer.rs BlobCopier::copy`)
+
+Every repository has its OWN master key.  A blob enters a repository's packs either through `Packer::add` (backup, merge,
+repair … : `process_data` under the repository's key) or through `copy` from ANOTHER repository: `BlobCopier::copy` reads
+the blob with the SOURCE's key (`be_src.read_encrypted_from_partial`) and hands the plaintext to the destination's
+`Packer::add` — a fresh encryption under the DESTINATION's key with the destination's compression setting.  (The raw
+transfer `BlobCopier::copy_fast` is only used by `prune` inside one repository; `copyOneRaw` models what it would do
+between two repositories.) -/
+
+/-- a blob as a pack holds it: the bytes in the pack and the `uncompressed_length` its index entry records -/
+structure StoredBlob where
+  id : Nat
+  bytes : Bytes
+  ulen : Option Nat
+
+/-- what C04 needs of a repository: its key, whether it compresses (`config.compression`), the blobs in its packs -/
+structure BlobRepo (ae : AE) where
+  key : ae.Key
+  zstdOn : Bool
+  blobs : List StoredBlob
+
+/-- `index.has(id)` -/
+def BlobRepo.has {ae : AE} (r : BlobRepo ae) (id : Nat) : Bool := r.blobs.any (fun b => b.id == id)
+
+/-- `index.get_id(id)` -/
+def BlobRepo.get {ae : AE} (r : BlobRepo ae) (id : Nat) : Option StoredBlob := r.blobs.find? (fun b => b.id == id)
+
+/-- `Packer::add(data, id)`: skipped when indexed, else `process_data` under the repository's own key -/
+def BlobRepo.store (ae : AE) (z : Zstd) (r : BlobRepo ae) (nonce : Bytes) (id : Nat) (data : Bytes) : BlobRepo ae :=
+  if r.has id then r else
+  { r with blobs := r.blobs ++ [{ id := id, bytes := (encodeBlob ae z r.zstdOn r.key nonce data).1,
+                                  ulen := (encodeBlob ae z r.zstdOn r.key nonce data).2.2 }] }
+
+/-- `copy` for one blob id: blobs the destination has are filtered out, ids the source's index does not know are dropped
+(`filter_map(index.get_data)`), the others go through `BlobCopier::copy`: decode with the SOURCE key (an error aborts the
+command), `Packer::add` in the destination. -/
+def copyOne (ae : AE) (z : Zstd) (src dst : BlobRepo ae) (nonce : Bytes) (id : Nat) : Except CodecErr (BlobRepo ae) :=
+  if dst.has id then .ok dst else
+  match src.get id with
+  | none => .ok dst
+  | some b =>
+    match decodeBlob ae z src.key b.bytes b.ulen with
+    | .error e => .error e
+    | .ok data => .ok (dst.store ae z nonce id data)
+
+/-- the loop of `copy_blobs` (nonce `c`, `c+1`, … of the stream per transferred blob); at the first error the command stops —
+what was packed so far stays in the destination -/
+def copyMany (ae : AE) (z : Zstd) (nonce : Nat → Bytes) (src : BlobRepo ae) : BlobRepo ae → Nat → List Nat → BlobRepo ae × Nat
+  | dst, c, [] => (dst, c)
+  | dst, c, id :: ids =>
+    match copyOne ae z src dst (nonce c) id with
+    | .error _ => (dst, c + 1)
+    | .ok dst' => copyMany ae z nonce src dst' (c + 1) ids
+
+/-- NOT what `copy` does: the stored bytes transferred as they are (`BlobCopier::copy_fast` between two repositories) -/
+def copyOneRaw {ae : AE} (src dst : BlobRepo ae) (id : Nat) : BlobRepo ae :=
+  if dst.has id then dst else
+  match src.get id with
+  | none => dst
+  | some b => { dst with blobs := dst.blobs ++ [b] }
+
+/-- two repositories `a`, `b` and the stream position of the random nonces -/
+structure TwoRepos (ae : AE) where
+  a : BlobRepo ae
+  b : BlobRepo ae
+  ctr : Nat
+
+/-- commands on the pair (`toB`: the repository written to is `b`; `copy` reads from the other one) -/
+inductive CopyCmd where
+  /-- a command that stores a new blob (`backup`, `merge`, `repair` …) -/
+  | add (toB : Bool) (id : Nat) (data : Bytes)
+  /-- `copy` of the blobs with these ids from the other repository -/
+  | copy (toB : Bool) (ids : List Nat)
+  /-- `config --set-compression` -/
+  | setCompression (toB : Bool) (on : Bool)
+
+def stepCopy (ae : AE) (z : Zstd) (nonce : Nat → Bytes) (s : TwoRepos ae) : CopyCmd → TwoRepos ae
+  | .add false id data => { s with a := s.a.store ae z (nonce s.ctr) id data, ctr := s.ctr + 1 }
+  | .add true id data => { s with b := s.b.store ae z (nonce s.ctr) id data, ctr := s.ctr + 1 }
+  | .copy false ids => let r := copyMany ae z nonce s.b s.a s.ctr ids; { s with a := r.1, ctr := r.2 }
+  | .copy true ids => let r := copyMany ae z nonce s.a s.b s.ctr ids; { s with b := r.1, ctr := r.2 }
+  | .setCompression false on => { s with a := { s.a with zstdOn := on } }
+  | .setCompression true on => { s with b := { s.b with zstdOn := on } }
+
+def runCopy (ae : AE) (z : Zstd) (nonce : Nat → Bytes) (s : TwoRepos ae) (cmds : List CopyCmd) : TwoRepos ae :=
+  cmds.foldl (stepCopy ae z nonce) s
 
 end Rustic.Codec
